@@ -104,6 +104,7 @@ def run(case):
     import dns.name
     import dns.rdata
     import dns.rdataclass
+    import dns.rdataset
     import dns.rdatatype
     import dns.versioned
 
@@ -182,6 +183,11 @@ def run(case):
     def writer_prog(t, prog):
         rdatas = [[txt(f"w{t}t{j}a{k}") for k in range(tx["adds"])] for j, tx in enumerate(prog)]
         names = [[dns.name.from_text(f"w{t}t{j}a{k}", None) for k in range(tx["adds"])] for j, tx in enumerate(prog)]
+        # every other writer thread keeps ONE Rdataset object for the `last` name for its whole life,
+        # rewrites it in place inside each transaction and hands it to replace(): what a committed
+        # version (and any reader) shows must not follow the object the application still holds
+        held = dns.rdataset.Rdataset(IN, TXT, ttl=300) if t % 2 == 0 else None
+        nheld = [0]
 
         def body(j, tx, txn, r, ts):
             zone = state["zone"]
@@ -196,7 +202,15 @@ def run(case):
                 txn.add(apex, 300, rdatas[j][k])
                 txn.add(names[j][k], 300, rdatas[j][k])
             if tx["adds"]:
-                txn.replace(last_name, 300, rdatas[j][-1])
+                if held is not None:
+                    held.clear()
+                    held.add(rdatas[j][-1], 300)
+                    txn.replace(last_name, held)
+                    nheld[0] += 1
+                    if nheld[0] >= 2:
+                        flags["held_reused"] = True
+                else:
+                    txn.replace(last_name, 300, rdatas[j][-1])
             ctrl.pause()
             if zone._write_txn is not txn:
                 raise Violation("mutual-exclusion", "zone._write_txn changed while the transaction was open", "write_txn-overwritten")
@@ -420,6 +434,8 @@ def run(case):
     classes = set()
     if flags["contention"]:
         classes.add("contention")
+    if flags.get("held_reused"):
+        classes.add("held-rdataset-rewritten-in-later-txn")
     lsw = res.line_switches.get("writer", 0)
     if lsw:
         classes.add("line_switch_in_writer")
@@ -513,6 +529,7 @@ def parts(tier):
                 "commit_with_waiters": 100,
                 "reader_during_write": 100,
                 "queue>=2": 100,
+                "held-rdataset-rewritten-in-later-txn": 1500,
                 "admission_order_not_thread_order": 200,
                 "__nontrivial__": 500,
             },
